@@ -10,6 +10,7 @@
   Every statement quantifies over all inputs of its domain; the only hypotheses are Go's own type
   bounds (`len(data) < 2^32`, `int64`, `[20]byte`), each shown inhabited by an `example`.
 -/
+import BtcVerif.Props.GuardPins.P_script
 import BtcVerif.Proofs.Script
 import BtcVerif.Proofs.ScriptNum
 import BtcVerif.Proofs.ScriptTpl
